@@ -1,2 +1,627 @@
-// Package c10: (not built yet)
+// Package c10: a rejected resume leaves the session untouched; impossible resumptions fail the
+// session instead of returning a Go error or panicking.
 package c10
+
+import (
+	"encoding/json"
+	"errors"
+	"fmt"
+	"strings"
+	"time"
+
+	"github.com/nyaruka/goflow/assets"
+	"github.com/nyaruka/goflow/flows"
+	"github.com/nyaruka/goflow/flows/engine"
+	"github.com/nyaruka/goflow/flows/events"
+	"verif/checks/sm"
+	"verif/mc"
+	"verif/world"
+)
+
+var quickKinds = []string{"A", "Em", "Es", "Est", "Eo", "W", "WT"}
+var thoroughKinds = []string{"A", "Em", "Es", "Est", "Eo", "Eot", "W", "WT", "S"}
+
+// the full resume menu: every resume type, accepted or not by the wait at hand
+var menu = []string{"msg:a", "timeout", "expire", "dial:answered"}
+
+// asset faults applied between sprints, relative to the waiting run
+var faults = []string{
+	"waiting-flow-deleted", "waiting-node-deleted", "router-removed", "wait-removed", "wait-type-changed",
+	"timeout-removed", "parent-flow-deleted", "parent-node-deleted", "all-other-flows-deleted", "storage:status-waiting-no-run-waiting",
+}
+
+type replay struct {
+	Root  world.Root   `json:"root"`
+	Hist  []world.Step `json:"history"`
+	Ev    string       `json:"event"`
+	Fault string       `json:"fault,omitempty"`
+	Live  bool         `json:"live"`
+}
+
+func roots(tier string) []world.Root {
+	var sets []world.FlowSet
+	if tier == "quick" {
+		sets = world.EnumFlowSets(quickKinds, 2, 1)
+	} else {
+		sets = world.EnumFlowSets(thoroughKinds, 2, 1)
+	}
+	var out []world.Root
+	for i := range sets {
+		for _, tr := range []string{"manual", "msg"} {
+			out = append(out, world.Root{Flows: &sets[i], Trigger: tr, Opt: world.Options{MaxSteps: 8}})
+		}
+		// the resume limit reached: MaxResumesPerSession = 1
+		out = append(out, world.Root{Flows: &sets[i], Trigger: "manual", Opt: world.Options{MaxSteps: 8, MaxResumes: 1}})
+	}
+	return out
+}
+
+func run(c *mc.Ctx) {
+	rs := roots(c.Tier)
+	depth := 2
+	if c.Thorough() {
+		depth = 3
+	}
+	for i := range rs {
+		if !c.Mine(i) {
+			continue
+		}
+		if c.Expired() {
+			c.Cap("time budget reached; every root before the cap was explored completely")
+			break
+		}
+		root := &rs[i]
+		cfg := sm.Cfg{Depth: depth, Events: world.Events, Regimes: []bool{true}, ChoiceBound: 0}
+		cfg.OnNewState = func(t *sm.Trans) { onState(c, t) }
+		st := sm.Search(root, cfg)
+		c.Inc("roots")
+		c.Add("states", int64(st.States))
+		c.Add("transitions", int64(st.Transitions))
+		if st.Waiting > 0 {
+			c.Inc("distinct_nontrivial")
+		}
+	}
+}
+
+// outcome of one resume attempt
+type attempt struct {
+	session  flows.Session
+	sprint   flows.Sprint
+	err      error
+	panicked string
+	before   []byte
+	after    []byte
+	readErr  error
+}
+
+// state is a reached session state: the live execution that reached it and its JSON.
+type state struct {
+	root *world.Root
+	hist []world.Step
+	x    *world.Exec
+	json []byte
+	// faulted assets are built once per (state, fault)
+	faulted map[string]*faultedAssets
+}
+
+type faultedAssets struct {
+	sa         flows.SessionAssets
+	sess       []byte
+	applicable bool
+	err        error
+}
+
+func newState(root *world.Root, hist []world.Step, x *world.Exec) (*state, error) {
+	b, err := json.Marshal(x.Session)
+	if err != nil {
+		return nil, err
+	}
+	return &state{root: root, hist: hist, x: x, json: b, faulted: map[string]*faultedAssets{}}, nil
+}
+
+// tryResume applies ev to the state: live (a fresh replay's own object) or restored from the state's
+// JSON against the (possibly faulted) assets.
+func tryResume(st *state, ev string, fault string, live bool) (*attempt, error) {
+	a := &attempt{}
+	x := st.x
+	sa := x.SA
+	sessJSON := st.json
+	if fault != "" {
+		fa := st.faulted[fault]
+		if fa == nil {
+			fa = &faultedAssets{}
+			var doc world.J
+			doc, fa.sess, fa.applicable = applyFault(st.root, x, fault, st.json)
+			if fa.applicable {
+				fa.sa, _, fa.err = world.BuildAssets(doc)
+			}
+			st.faulted[fault] = fa
+		}
+		if !fa.applicable {
+			return nil, nil
+		}
+		if fa.err != nil {
+			return nil, fmt.Errorf("faulted assets: %w", fa.err)
+		}
+		sa, sessJSON = fa.sa, fa.sess
+	}
+	var s flows.Session
+	if live && fault == "" {
+		lx, err := st.root.Run(st.hist)
+		if err != nil {
+			return nil, err
+		}
+		s = lx.Session
+	} else {
+		a.panicked = mc.Guard(func() { s, a.readErr = x.Eng.ReadSession(sa, sessJSON, assets.IgnoreMissing) })
+		if a.panicked != "" || a.readErr != nil {
+			return a, nil
+		}
+	}
+	a.session = s
+	a.before, _ = json.Marshal(s)
+	res := world.MakeResume(ev)
+	a.panicked = mc.Guard(func() { a.sprint, a.err = s.Resume(res) })
+	if a.panicked == "" {
+		a.after, _ = json.Marshal(s)
+	}
+	return a, nil
+}
+
+func findNode(doc world.J, flowUUID, nodeUUID string) (world.J, []any, int, world.J) {
+	fl, _ := doc["flows"].([]any)
+	for _, f := range fl {
+		fj := f.(world.J)
+		if fj["uuid"] != flowUUID {
+			continue
+		}
+		nodes, _ := fj["nodes"].([]any)
+		for i, n := range nodes {
+			if n.(world.J)["uuid"] == nodeUUID {
+				return fj, nodes, i, n.(world.J)
+			}
+		}
+		return fj, nodes, -1, nil
+	}
+	return nil, nil, -1, nil
+}
+
+func deleteFlow(doc world.J, flowUUID string) bool {
+	fl, _ := doc["flows"].([]any)
+	var out []any
+	for _, f := range fl {
+		if f.(world.J)["uuid"] != flowUUID {
+			out = append(out, f)
+		}
+	}
+	if len(out) == len(fl) {
+		return false
+	}
+	if out == nil {
+		out = []any{}
+	}
+	doc["flows"] = out
+	return true
+}
+
+// applyFault returns a fresh faulted asset document (and possibly edited session JSON).
+func applyFault(root *world.Root, x *world.Exec, fault string, sessJSON []byte) (world.J, []byte, bool) {
+	// deep copy via JSON so that the root's document is never aliased
+	var doc world.J
+	b, _ := json.Marshal(root.AssetDoc())
+	json.Unmarshal(b, &doc)
+
+	var waiting flows.Run
+	for _, r := range x.Session.Runs() {
+		if r.Status() == flows.RunStatusWaiting {
+			waiting = r
+		}
+	}
+	if fault == "storage:status-waiting-no-run-waiting" {
+		if x.Session.Status() == flows.SessionStatusWaiting {
+			return nil, nil, false
+		}
+		edited := strings.Replace(string(sessJSON), `"status":"`+string(x.Session.Status())+`"`, `"status":"waiting"`, 1)
+		// the first "status" member in the envelope order is the session's (runs come later)
+		var probe struct {
+			Status string `json:"status"`
+		}
+		json.Unmarshal([]byte(edited), &probe)
+		if probe.Status != "waiting" {
+			return nil, nil, false
+		}
+		return doc, []byte(edited), true
+	}
+	if waiting == nil {
+		return nil, nil, false
+	}
+	flowUUID := string(waiting.FlowReference().UUID)
+	path := waiting.Path()
+	nodeUUID := string(path[len(path)-1].NodeUUID())
+	switch fault {
+	case "waiting-flow-deleted":
+		return doc, sessJSON, deleteFlow(doc, flowUUID)
+	case "waiting-node-deleted":
+		fj, nodes, i, _ := findNode(doc, flowUUID, nodeUUID)
+		if i < 0 {
+			return nil, nil, false
+		}
+		// drop the node and any exit destinations that pointed to it
+		rest := append(append([]any{}, nodes[:i]...), nodes[i+1:]...)
+		for _, n := range rest {
+			for _, e := range n.(world.J)["exits"].([]any) {
+				if e.(world.J)["destination_uuid"] == nodeUUID {
+					delete(e.(world.J), "destination_uuid")
+				}
+			}
+		}
+		fj["nodes"] = rest
+		return doc, sessJSON, true
+	case "router-removed":
+		_, _, i, n := findNode(doc, flowUUID, nodeUUID)
+		if i < 0 {
+			return nil, nil, false
+		}
+		delete(n, "router")
+		n["exits"] = n["exits"].([]any)[:1]
+		return doc, sessJSON, true
+	case "wait-removed", "wait-type-changed", "timeout-removed":
+		_, _, i, n := findNode(doc, flowUUID, nodeUUID)
+		if i < 0 {
+			return nil, nil, false
+		}
+		r, _ := n["router"].(world.J)
+		if r == nil {
+			return nil, nil, false
+		}
+		w, _ := r["wait"].(world.J)
+		if w == nil {
+			return nil, nil, false
+		}
+		switch fault {
+		case "wait-removed":
+			delete(r, "wait")
+		case "wait-type-changed":
+			r["wait"] = world.J{"type": "dial", "phone": "+593979123456", "dial_limit_seconds": 60, "call_limit_seconds": 120}
+			// dial waits are only allowed in voice flows: change the flow type too
+			fj, _, _, _ := findNode(doc, flowUUID, nodeUUID)
+			fj["type"] = "voice"
+		case "timeout-removed":
+			if _, ok := w["timeout"]; !ok {
+				return nil, nil, false
+			}
+			delete(w, "timeout")
+		}
+		return doc, sessJSON, true
+	case "parent-flow-deleted", "parent-node-deleted":
+		p := waiting.ParentInSession()
+		if p == nil {
+			return nil, nil, false
+		}
+		pf := string(p.FlowReference().UUID)
+		if fault == "parent-flow-deleted" {
+			if pf == flowUUID {
+				return nil, nil, false // same flow: covered by waiting-flow-deleted
+			}
+			return doc, sessJSON, deleteFlow(doc, pf)
+		}
+		pp := p.Path()
+		pn := string(pp[len(pp)-1].NodeUUID())
+		if pf == flowUUID && pn == nodeUUID {
+			return nil, nil, false
+		}
+		fj, nodes, i, _ := findNode(doc, pf, pn)
+		if i < 0 {
+			return nil, nil, false
+		}
+		rest := append(append([]any{}, nodes[:i]...), nodes[i+1:]...)
+		for _, n := range rest {
+			for _, e := range n.(world.J)["exits"].([]any) {
+				if e.(world.J)["destination_uuid"] == pn {
+					delete(e.(world.J), "destination_uuid")
+				}
+			}
+		}
+		fj["nodes"] = rest
+		return doc, sessJSON, true
+	case "all-other-flows-deleted":
+		fl, _ := doc["flows"].([]any)
+		if len(fl) < 2 {
+			return nil, nil, false
+		}
+		var keep []any
+		for _, f := range fl {
+			if f.(world.J)["uuid"] == flowUUID {
+				keep = append(keep, f)
+			}
+		}
+		doc["flows"] = keep
+		return doc, sessJSON, true
+	}
+	panic("unknown fault " + fault)
+}
+
+func hasFailureEvent(sp flows.Sprint) bool {
+	if sp == nil {
+		return false
+	}
+	for _, e := range sp.Events() {
+		if e.Type() == events.TypeFailure {
+			return true
+		}
+	}
+	return false
+}
+
+func onState(c *mc.Ctx, t *sm.Trans) {
+	st, err := newState(t.Root, t.Hist, t.X)
+	if err != nil {
+		c.Violation("harness:"+mc.Hash(err.Error()), err.Error(), nil)
+		return
+	}
+	for _, ev := range menu {
+		for _, live := range []bool{true, false} {
+			judge(c, st, t, ev, "", live)
+		}
+		for _, f := range faults {
+			judge(c, st, t, ev, f, false)
+		}
+	}
+}
+
+func judge(c *mc.Ctx, st *state, t *sm.Trans, ev, fault string, live bool) {
+	rp := replay{Root: *t.Root, Hist: t.Hist, Ev: ev, Fault: fault, Live: live}
+	for _, p := range evaluate(c, st, &rp, true) {
+		c.Violation(p.Key, p.What+"\nflows: "+t.Root.Flows.String()+fmt.Sprintf("\ntrigger=%s opt=%+v history=%s event=%s fault=%q live=%v", t.Root.Trigger, t.Root.Opt, mc.JSON(t.Hist), ev, fault, live), rp)
+	}
+}
+
+func evType(ev string) string {
+	if i := strings.Index(ev, ":"); i > 0 {
+		return ev[:i]
+	}
+	return ev
+}
+
+// evaluate runs one (state, resume, fault) experiment and returns the violated clauses.
+func evaluate(c *mc.Ctx, st *state, rp *replay, count bool) []sm.Problem {
+	var ps []sm.Problem
+	add := func(key, what string, args ...any) {
+		ps = append(ps, sm.Problem{Key: key, What: fmt.Sprintf(what, args...)})
+	}
+	a, err := tryResume(st, rp.Ev, rp.Fault, rp.Live)
+	if err != nil {
+		add("harness:"+mc.Hash(err.Error()), "harness error: %v", err)
+		return ps
+	}
+	if a == nil {
+		return nil // fault not applicable in this state
+	}
+	if count {
+		c.Inc("evaluations")
+		c.Inc("transitions")
+	}
+	faultClass := rp.Fault
+	if faultClass == "" {
+		faultClass = "none"
+	}
+	if a.readErr != nil || (a.panicked != "" && a.session == nil) {
+		if a.panicked != "" {
+			add("read-panic:fault="+faultClass+":"+mc.PanicSite(a.panicked), "ReadSession panicked against faulted assets: %s", a.panicked)
+		} else {
+			add("read-error:fault="+faultClass+":"+firstWords(a.readErr.Error(), 5), "ReadSession returned a Go error against faulted assets (the session can then never be failed by a resume): %v", a.readErr)
+		}
+		return ps
+	}
+	wasWaiting := false
+	var w struct {
+		Status string `json:"status"`
+	}
+	json.Unmarshal(a.before, &w)
+	wasWaiting = w.Status == "waiting"
+
+	if a.panicked != "" {
+		add("resume-panic:fault="+faultClass+":ev="+evType(rp.Ev)+":"+mc.PanicSite(a.panicked), "Resume panicked: %s", a.panicked)
+		return ps
+	}
+	var ee *engine.Error
+	switch {
+	case a.err != nil && errors.As(a.err, &ee):
+		if count {
+			c.Outcome(fmt.Sprintf("rejected:%d fault=%s", ee.Code(), faultClass))
+			c.Fact(fmt.Sprintf("error_%d", ee.Code()))
+		}
+		// (a) rejected: session untouched, no events
+		if string(a.before) != string(a.after) {
+			add(fmt.Sprintf("rejected-%d:session-json-changed:ev=%s:fault=%s:%s", ee.Code(), evType(rp.Ev), faultClass, diffMember(a.before, a.after)),
+				"resume rejected with engine error %d but the session JSON changed (%s)", ee.Code(), diffMember(a.before, a.after))
+		}
+		if a.sprint != nil && (len(a.sprint.Events()) > 0 || len(a.sprint.Segments()) > 0 || len(a.sprint.Modifiers()) > 0) {
+			add(fmt.Sprintf("rejected-%d:sprint-not-empty:ev=%s", ee.Code(), evType(rp.Ev)), "resume rejected with engine error %d but the sprint has events/segments/modifiers", ee.Code())
+		}
+		// expected code
+		switch ee.Code() {
+		case engine.ErrorResumeNonWaitingSession:
+			if wasWaiting {
+				add("rejected-101:but-session-was-waiting", "error 101 for a waiting session")
+			}
+		case engine.ErrorResumeNoWaitingRun, engine.ErrorResumeRejectedByWait:
+			if !wasWaiting {
+				add(fmt.Sprintf("rejected-%d:but-session-not-waiting", ee.Code()), "error %d for a session that is not waiting", ee.Code())
+			}
+		default:
+			add(fmt.Sprintf("rejected-unknown-code-%d", ee.Code()), "unknown engine error code %d", ee.Code())
+		}
+		// differential: a following acceptable resume behaves as if the rejected one never happened
+		if wasWaiting && rp.Fault == "" {
+			ps = append(ps, differential(c, st, rp, a)...)
+		}
+	case a.err != nil:
+		add("go-error:fault="+faultClass+":ev="+evType(rp.Ev)+":"+firstWords(a.err.Error(), 5), "Resume returned a Go error that is not an engine error: %v", a.err)
+	default:
+		// (b) accepted (or session failed)
+		s := a.session
+		if count {
+			c.Outcome(fmt.Sprintf("nil:%s fault=%s", s.Status(), faultClass))
+		}
+		if !wasWaiting {
+			add("accepted:resume-of-non-waiting-session:fault="+faultClass, "Resume returned nil for a session that was not waiting")
+		}
+		switch s.Status() {
+		case flows.SessionStatusWaiting, flows.SessionStatusCompleted, flows.SessionStatusFailed:
+		default:
+			add("accepted:session-still-"+string(s.Status()), "session status %s after resume", s.Status())
+		}
+		nWaiting, nActive := 0, 0
+		for _, r := range s.Runs() {
+			if r.Status() == flows.RunStatusWaiting {
+				nWaiting++
+			}
+			if r.Status() == flows.RunStatusActive {
+				nActive++
+			}
+		}
+		if s.Status() == flows.SessionStatusWaiting && nWaiting != 1 {
+			add(fmt.Sprintf("accepted:waiting-session-with-%d-waiting-runs:fault=%s", nWaiting, faultClass), "waiting session with %d waiting runs", nWaiting)
+		}
+		if s.Status() != flows.SessionStatusWaiting && (nWaiting > 0 || nActive > 0) {
+			add("accepted:final-session-with-live-runs:fault="+faultClass, "session %s but %d waiting and %d active runs", s.Status(), nWaiting, nActive)
+		}
+		// impossible conditions end the session failed with a failure event
+		impossible := rp.Fault == "waiting-flow-deleted" || rp.Fault == "waiting-node-deleted" || rp.Fault == "router-removed" || rp.Fault == "wait-removed"
+		if rp.Root.Opt.MaxResumes == 1 && wasWaiting && (rp.Fault == "" || rp.Fault == "timeout-removed" || rp.Fault == "wait-type-changed") {
+			impossible = true // the resume limit is reached
+			if count {
+				c.Fact("resume_limit_reached")
+			}
+		}
+		if impossible {
+			if count {
+				c.Fact("impossible:" + faultClass)
+			}
+			if s.Status() != flows.SessionStatusFailed || !hasFailureEvent(a.sprint) {
+				add("impossible-resume-not-failed:fault="+faultClass+":status="+string(s.Status()), "resumption was impossible (%s) but the session is %s (failure event: %v)", faultClass, s.Status(), hasFailureEvent(a.sprint))
+			}
+		}
+	}
+	return ps
+}
+
+// differential compares [rejected, msg:a] with [msg:a] from the same state.
+func differential(c *mc.Ctx, st *state, rp *replay, a *attempt) []sm.Problem {
+	var ps []sm.Problem
+	// continue the attempt's own session object with an acceptable resume
+	var sp1 flows.Sprint
+	var err1 error
+	p1 := mc.Guard(func() { sp1, err1 = a.session.Resume(world.MakeResume("msg:a")) })
+	after1, _ := json.Marshal(a.session)
+	// the branch that skipped the rejected resume
+	b, err := tryResume(st, "msg:a", "", rp.Live)
+	if err != nil || b == nil {
+		return ps
+	}
+	c.Inc("differential_comparisons")
+	o1 := world.Canon([]byte(fmt.Sprintf("%v|%v|%s|%s", p1 != "", errStr(err1), eventsJSON(sp1), after1)))
+	o2 := world.Canon([]byte(fmt.Sprintf("%v|%v|%s|%s", b.panicked != "", errStr(b.err), eventsJSON(b.sprint), b.after)))
+	if o1 != o2 {
+		ps = append(ps, sm.Problem{Key: "rejected:later-resume-differs:ev=" + evType(rp.Ev), What: "after a rejected resume, an acceptable resume behaves differently from the branch that never saw the rejected one\nwith:    " + trim(o1, 700) + "\nwithout: " + trim(o2, 700)})
+	}
+	return ps
+}
+
+func errStr(e error) string {
+	if e == nil {
+		return ""
+	}
+	return e.Error()
+}
+
+func eventsJSON(sp flows.Sprint) string {
+	if sp == nil {
+		return "nil"
+	}
+	b, _ := json.Marshal(sp.Events())
+	return string(b)
+}
+
+// diffMember names the first top-level member of the session JSON that differs.
+func diffMember(a, b []byte) string {
+	var ma, mb map[string]json.RawMessage
+	json.Unmarshal(a, &ma)
+	json.Unmarshal(b, &mb)
+	for _, k := range []string{"status", "runs", "contact", "input", "environment", "trigger", "wait", "uuid", "type"} {
+		if string(ma[k]) != string(mb[k]) {
+			return k
+		}
+	}
+	return "other"
+}
+
+func firstWords(s string, n int) string {
+	f := strings.Fields(s)
+	if len(f) > n {
+		f = f[:n]
+	}
+	out := strings.ToLower(strings.Join(f, "-"))
+	return strings.Map(func(r rune) rune {
+		if (r >= 'a' && r <= 'z') || (r >= '0' && r <= '9') || r == '-' {
+			return r
+		}
+		return -1
+	}, out)
+}
+
+func trim(s string, n int) string {
+	if len(s) > n {
+		return s[:n] + "…"
+	}
+	return s
+}
+
+func replayFn(c *mc.Ctx, raw json.RawMessage) (string, bool) {
+	var rp replay
+	if err := json.Unmarshal(raw, &rp); err != nil {
+		return "bad replay: " + err.Error(), false
+	}
+	x, err := rp.Root.Run(rp.Hist)
+	if err != nil {
+		return "harness error: " + err.Error(), false
+	}
+	st, err := newState(&rp.Root, rp.Hist, x)
+	if err != nil {
+		return "harness error: " + err.Error(), false
+	}
+	ps := evaluate(c, st, &rp, false)
+	out := fmt.Sprintf("flows: %s\ntrigger=%s history=%s event=%s fault=%q live=%v\n", rp.Root.Flows.String(), rp.Root.Trigger, mc.JSON(rp.Hist), rp.Ev, rp.Fault, rp.Live)
+	for _, p := range ps {
+		out += fmt.Sprintf("PROBLEM %s: %s\n", p.Key, p.What)
+	}
+	return out, len(ps) > 0
+}
+
+func init() {
+	mc.Register(&mc.Check{
+		ID:    "C10",
+		Level: "fault_enumeration",
+		Rule: "every state reached by the BFS over the real engine (canonical flow sets <= 2(+1) nodes x {manual,msg} triggers, plus MaxResumesPerSession=1 roots; histories to depth 2/3) x every resume type {msg, wait_timeout, run_expiration, dial} x {live object, restored} x every single asset fault between sprints " +
+			"(waiting flow deleted, waiting node deleted, router removed, wait removed, wait type changed, timeout removed, parent flow deleted, parent node deleted, other flows deleted) plus the storage fault 'status says waiting but no run waits'. " +
+			"Rejected (engine error 101/102/103): session JSON byte-identical, empty sprint, and a following acceptable resume behaves as in the branch that never saw the rejected one. Accepted: status/run invariants; impossible conditions must fail the session with a failure event. Any other Go error or panic is a violation. " +
+			"distinct_nontrivial counts roots that reach a waiting state.",
+		Assumptions: []string{"single faults only in the quick tier", "asset faults are edits of the asset document between sprints; the session is re-read with assets.IgnoreMissing as hosts do"},
+		Run:         run,
+		Replay:      replayFn,
+		Budget:      map[string]time.Duration{"quick": 4 * time.Minute, "thorough": 25 * time.Minute},
+		Guards: func(r *mc.Result, tier string) []string {
+			var f []string
+			for _, fact := range []string{"error_101", "error_102", "error_103", "resume_limit_reached", "impossible:waiting-flow-deleted", "impossible:waiting-node-deleted", "impossible:router-removed", "impossible:wait-removed"} {
+				if r.Facts[fact] == 0 {
+					f = append(f, "never observed: "+fact)
+				}
+			}
+			if r.Counters["differential_comparisons"] == 0 {
+				f = append(f, "no differential comparison was made")
+			}
+			return f
+		},
+	})
+}
